@@ -66,6 +66,8 @@ def build(desc):
         return getattr(np, desc['t'])(desc['v'])
     if k == 'stub':
         return Stub(desc)
+    if k == 'written_file':
+        return desc            # resolved after the other arguments are built
     raise ValueError('desc kind %r' % k)
 
 
@@ -338,6 +340,9 @@ def summarize(v, depth=0):
     return repr(v)
 
 
+_TMPFILES = []
+
+
 def run_job(job):
     out = {}
     env = clause_env(job['verif_root'])
@@ -346,6 +351,19 @@ def run_job(job):
     except Exception as e:
         return {'error': 'build: %s: %s' % (type(e).__name__, e),
                 'trace': traceback.format_exc()}
+    for n in job['order']:
+        d = args[n]
+        if isinstance(d, dict) and d.get('k') == 'written_file':
+            import tempfile
+            w = _import_target(d['writer'])
+            kw = {k: args[v] for k, v in d['args'].items()}
+            kw.update(d.get('kwargs', {}))
+            text = w(**kw)
+            fd, path = tempfile.mkstemp(prefix='pvc_file_', suffix='.txt')
+            with os.fdopen(fd, 'w') as fh:
+                fh.write(text)
+            args[n] = path
+            _TMPFILES.append(path)
     pre = copy.deepcopy(args)
     pre_env = dict(env)
     pre_env.update(pre)
@@ -417,6 +435,11 @@ def main():
             res.append({'error': '%s: %s' % (type(e).__name__, e),
                         'trace': traceback.format_exc()})
     json.dump(res, sys.stdout)
+    for p in _TMPFILES:
+        try:
+            os.remove(p)
+        except OSError:
+            pass
 
 
 if __name__ == '__main__':
